@@ -24,6 +24,8 @@ use rustrtc::transports::ice::IceSocketWrapper;
 use rustrtc::transports::ice::conn::IceConn;
 use serde_json::{Value, json};
 use std::collections::HashMap;
+#[allow(unused_imports)]
+use std::fmt::Write as _;
 use std::net::SocketAddr;
 use std::sync::Arc;
 use tokio::net::UdpSocket;
@@ -219,15 +221,77 @@ impl Op {
     }
 }
 
-/// Rewriter callback: (op, datagram) -> replacement datagrams. Installed by the C02 harness.
-pub type Rewriter = Arc<dyn Fn(&Op, &[u8]) -> Vec<Vec<u8>> + Send + Sync>;
+/// The on-path adversary M of C02: its own certificate and key, a DH share and a random.
+pub struct Adversary {
+    pub cert: Certificate,
+    key: p256::ecdsa::SigningKey,
+    pub dh_pub: Vec<u8>, // uncompressed P-256 point
+    pub random: [u8; 32],
+}
+
+impl Adversary {
+    pub fn new(cert: Certificate, random: [u8; 32]) -> Adversary {
+        use p256::pkcs8::DecodePrivateKey;
+        let key = p256::ecdsa::SigningKey::from_pkcs8_pem(&cert.private_key).expect("adversary key");
+        // any valid curve point serves as the adversary's ECDH share; it takes a fresh one
+        let sk = p256::ecdh::EphemeralSecret::random(&mut p256::elliptic_curve::rand_core::OsRng);
+        use p256::elliptic_curve::sec1::ToEncodedPoint;
+        let dh_pub = sk.public_key().to_encoded_point(false).as_bytes().to_vec();
+        Adversary { cert, key, dh_pub, random }
+    }
+
+    /// ECDSA-SHA256 (DER) by M's certificate key over client_random || server_random || ECDH params.
+    fn sign_ske(&self, cr: &[u8], sr: &[u8], pk: &[u8]) -> Vec<u8> {
+        use p256::ecdsa::signature::Signer;
+        let mut m = Vec::new();
+        m.extend_from_slice(cr);
+        m.extend_from_slice(sr);
+        m.push(3);
+        m.extend_from_slice(&23u16.to_be_bytes());
+        m.push(pk.len() as u8);
+        m.extend_from_slice(pk);
+        let sig: p256::ecdsa::Signature = self.key.sign(&m);
+        sig.to_der().as_bytes().to_vec()
+    }
+}
+
+fn ske_parts(body: &[u8]) -> Option<(Vec<u8>, Vec<u8>)> {
+    // curve_type(1) named_curve(2) pklen(1) pk sigalg(2) siglen(2) sig
+    if body.len() < 4 {
+        return None;
+    }
+    let pl = body[3] as usize;
+    if body.len() < 4 + pl + 4 {
+        return None;
+    }
+    let pk = body[4..4 + pl].to_vec();
+    let sl = u16::from_be_bytes([body[4 + pl + 2], body[4 + pl + 3]]) as usize;
+    if body.len() < 4 + pl + 4 + sl {
+        return None;
+    }
+    Some((pk, body[4 + pl + 4..4 + pl + 4 + sl].to_vec()))
+}
+
+fn ske_build(pk: &[u8], sig: &[u8]) -> Vec<u8> {
+    let mut b = vec![3u8];
+    b.extend_from_slice(&23u16.to_be_bytes());
+    b.push(pk.len() as u8);
+    b.extend_from_slice(pk);
+    b.extend_from_slice(&[4, 3]);
+    b.extend_from_slice(&(sig.len() as u16).to_be_bytes());
+    b.extend_from_slice(sig);
+    b
+}
 
 pub struct ProxyState {
     pub ops: Vec<Op>,
     counts: HashMap<(String, String), u32>,
     held: HashMap<String, Vec<(u32, Vec<u8>, String)>>, // dir -> (remaining, datagram, label)
     next_frag_rseq: u64,
-    pub rewriter: Option<Rewriter>,
+    pub adversary: Option<Adversary>,
+    /// randoms as last delivered towards the server (ClientHello) / the client (ServerHello)
+    cr_seen: Vec<u8>,
+    sr_seen: Vec<u8>,
     /// message_seq shift applied to plaintext handshake messages per direction (after an `omit`).
     seq_shift: HashMap<String, i32>,
     pub forwarded: u64,
@@ -242,7 +306,9 @@ impl ProxyState {
             counts: HashMap::new(),
             held: HashMap::new(),
             next_frag_rseq: 0x4000_0000,
-            rewriter: None,
+            adversary: None,
+            cr_seen: Vec::new(),
+            sr_seen: Vec::new(),
             seq_shift: HashMap::new(),
             forwarded: 0,
             originals: Vec::new(),
@@ -305,6 +371,99 @@ impl ProxyState {
             Some(vec![(frags.concat(), 0)])
         } else {
             Some(frags.into_iter().enumerate().map(|(i, f)| (f, i + 1)).collect())
+        }
+    }
+
+    /// Adversary operation `what` on the single plaintext handshake message in `d`.
+    /// Returns the datagrams that replace it (injections put a record of M's making in front).
+    fn rewrite(&mut self, what: &str, d: &[u8]) -> Vec<Vec<u8>> {
+        let Some(adv) = self.adversary.as_ref() else { return vec![d.to_vec()] };
+        let recs = parse_records(d);
+        if what == "inj_app0" {
+            self.next_frag_rseq += 1;
+            let r = Rec { ctype: 23, epoch: 0, rseq: self.next_frag_rseq, body: b"injected-plaintext-appdata".to_vec() };
+            return vec![encode_record(&r), d.to_vec()];
+        }
+        if what == "inj_fin0" {
+            // a plaintext Finished with the message_seq of the message it precedes
+            let ms = recs.first().filter(|r| r.ctype == 22 && r.epoch == 0).and_then(|r| parse_hs(&r.body).first().map(|h| h.mseq));
+            let Some(ms) = ms else { return vec![d.to_vec()] };
+            self.next_frag_rseq += 1;
+            let h = Hs { typ: 20, total: 12, mseq: ms, off: 0, flen: 12, body: vec![0xA5; 12] };
+            let r = Rec { ctype: 22, epoch: 0, rseq: self.next_frag_rseq, body: encode_hs(&h) };
+            return vec![encode_record(&r), d.to_vec()];
+        }
+        if recs.len() != 1 || recs[0].ctype != 22 || recs[0].epoch != 0 {
+            return vec![d.to_vec()];
+        }
+        let hs = parse_hs(&recs[0].body);
+        if hs.len() != 1 || hs[0].flen != hs[0].total {
+            return vec![d.to_vec()];
+        }
+        let mut h = hs[0].clone();
+        match (what, h.typ) {
+            ("rw_cert", 11) => {
+                let der = &adv.cert.certificate[0];
+                let mut b = Vec::new();
+                b.extend_from_slice(&((der.len() + 3) as u32).to_be_bytes()[1..4]);
+                b.extend_from_slice(&(der.len() as u32).to_be_bytes()[1..4]);
+                b.extend_from_slice(der);
+                h.body = b;
+            }
+            ("rw_ske_key", 12) => {
+                if let Some((_, sig)) = ske_parts(&h.body) {
+                    h.body = ske_build(&adv.dh_pub, &sig);
+                }
+            }
+            ("rw_ske_sig", 12) => {
+                if let Some((pk, _)) = ske_parts(&h.body) {
+                    let sig = adv.sign_ske(&self.cr_seen, &self.sr_seen, &pk);
+                    h.body = ske_build(&pk, &sig);
+                }
+            }
+            ("rw_ske_full", 12) => {
+                let sig = adv.sign_ske(&self.cr_seen, &self.sr_seen, &adv.dh_pub);
+                h.body = ske_build(&adv.dh_pub, &sig);
+            }
+            ("rw_crand", 1) | ("rw_srand", 2) => {
+                if h.body.len() >= 34 {
+                    h.body[2..34].copy_from_slice(&adv.random);
+                }
+            }
+            ("rw_prof", 2) => {
+                // use_srtp extension of ServerHello: 00 0e 00 05 00 02 <profile> 00
+                if let Some(p) = h.body.windows(6).position(|w| w == [0x00, 0x0e, 0x00, 0x05, 0x00, 0x02]) {
+                    let cur = u16::from_be_bytes([h.body[p + 6], h.body[p + 7]]);
+                    let new: u16 = if cur == 0x0001 { 0x0007 } else { 0x0001 };
+                    h.body[p + 6..p + 8].copy_from_slice(&new.to_be_bytes());
+                }
+            }
+            ("rw_cke_key", 16) => {
+                let mut b = vec![adv.dh_pub.len() as u8];
+                b.extend_from_slice(&adv.dh_pub);
+                h.body = b;
+            }
+            _ => return vec![d.to_vec()],
+        }
+        h.total = h.body.len() as u32;
+        h.flen = h.total;
+        let r = Rec { ctype: 22, epoch: 0, rseq: recs[0].rseq, body: encode_hs(&h) };
+        vec![encode_record(&r)]
+    }
+
+    fn note_randoms(&mut self, d: &[u8]) {
+        for r in parse_records(d) {
+            if r.ctype == 22 && r.epoch == 0 {
+                for h in parse_hs(&r.body) {
+                    if h.off == 0 && h.flen == h.total && h.body.len() >= 34 {
+                        if h.typ == 1 {
+                            self.cr_seen = h.body[2..34].to_vec();
+                        } else if h.typ == 2 {
+                            self.sr_seen = h.body[2..34].to_vec();
+                        }
+                    }
+                }
+            }
         }
     }
 
@@ -378,14 +537,16 @@ impl ProxyState {
                     net_event("omit", json!({"dir": dir, "msg": base, "ord": ord}));
                 }
                 _ => {
-                    let rw = self.rewriter.clone();
-                    let outs = match rw {
-                        Some(f) => f(&op, d),
-                        None => vec![d.to_vec()],
-                    };
-                    net_event("rw", json!({"dir": dir, "msg": base, "ord": ord, "kind": op.kind, "arg": op.arg, "n_out": outs.len()}));
-                    for o in outs {
-                        let l = dgram_label(&o);
+                    let what = op.arg["what"].as_str().unwrap_or("").to_string();
+                    let outs = self.rewrite(&what, d);
+                    let orig_ms: Vec<Value> = parse_records(d).iter().filter(|r| r.ctype == 22 && r.epoch == 0)
+                        .flat_map(|r| parse_hs(&r.body)).map(|h| json!(h.mseq)).collect();
+                    net_event("rw", json!({"dir": dir, "msg": base, "ord": ord, "kind": op.kind, "arg": op.arg, "n_out": outs.len(),
+                                           "orig_ms": orig_ms, "outs": outs.iter().map(|o| describe(o)).collect::<Vec<_>>()}));
+                    let n = outs.len();
+                    for (i, o) in outs.into_iter().enumerate() {
+                        // injected records travel unlabelled (they are not addressable by later ops)
+                        let l = if i + 1 < n { format!("inj:{}", dgram_label(&o)) } else { dgram_label(&o) };
                         stage1.push((o, l, ord));
                     }
                 }
@@ -408,6 +569,7 @@ impl ProxyState {
                 self.held.entry(dir.to_string()).or_default().push((k, bytes, label));
                 continue;
             }
+            self.note_randoms(&bytes);
             let dup = self.take_op(dir, &label, o, &["dup"]).is_some();
             net_event("tx", json!({"dir": dir, "msg": label, "ord": o, "dup": dup}));
             wire.push(bytes.clone());
